@@ -197,7 +197,13 @@ template <class A> static Verdict judge(const Fields &f, typename A::Uri *Sp, ty
     return Verdict::pass();
   }
   *relativeBranch = same_authority(S, B) || true;
-  bool provable = S.hasAuth() || (!S.hasAuth() && !B.hasAuth() && S.absolutePath);
+  // Can a reference without scheme resolve to S at all? With an authority in S: always (network-path reference). Without:
+  // never if B has one (it would be inherited); an absolute path of S can always be given as it is; a rootless or empty
+  // path of S can be reached from a rootless or empty base path (climbing with '..', '.' for the empty path, './' in front
+  // of a colon) and never from an absolute one. In domain-root mode the reference's path has to be absolute, so only the
+  // first three lines apply.
+  bool provable = S.hasAuth() || (!S.hasAuth() && !B.hasAuth() && S.absolutePath) ||
+                  (mode == 0 && !S.hasAuth() && !B.hasAuth() && !S.absolutePath && !B.absolutePath);
   if (provable && D.scheme) return fail("S and B share the scheme and a scheme-less reference exists, but the reference keeps the scheme");
   if (same_authority(S, B) && D.hasAuth()) return fail("S and B share the whole authority but the reference keeps an authority");
   if (mode == 1 && modeCanonical && same_authority(S, B) && S.hasAuth()) {
